@@ -82,21 +82,6 @@ def check_shape(run, rng, model, m, tier, light=False):
     if m.get("asn1c_rc") == 70 and "-fcompound-names" not in m["opts"] and 'Use "-fcompound-names" flag' in m.get("asn1c_out", ""):
         run.count("skipped_name_clash_without_compound_names")
         return
-    if not m.get("exe") and m.get("asn1c_rc") == 0 and m["rep"] == "wide":
-        # finding C18-optional-identifier-wide-selector: the selector of an open type governed by an OPTIONAL member declares its value as
-        # `const <member name>_t *` under -fwide-types (asn1c_type_name()'s static buffer is overwritten by MKID_safe() before it is used)
-        named = [members[i] for i in pyres if members[i]["opt"]]
-        # (the build log is the tail of one make run over all modules: this module's lines)
-        blog = "\n".join(x for x in m.get("build_log", "").splitlines() if x.startswith(m["name"] + "/"))
-        # (and it may have scrolled out of that tail: the generated text itself is the witness)
-        try:
-            ctext = open(os.path.join(m["dir"], "Frame.c"), errors="replace").read()
-        except OSError:
-            ctext = ""
-        if named and all("const %s_t *constraining_value = (const %s_t *)memb_ptr;" % (c_name(x["name"]), c_name(x["name"])) in ctext for x in named) and \
-           not re.search(r"error: (?!unknown type name .(%s)_t)" % "|".join(re.escape(c_name(x["name"])) for x in named), blog):
-            run.known_finding("C18-optional-identifier-wide-selector", m["name"])
-            return
     if not m.get("exe"):
         run.violation("build:module", dict(base, what="asn1c rejected a frame-shape module or its output does not compile", asn1c_rc=m.get("asn1c_rc"),
                                            asn1c_out=m.get("asn1c_out", "")[-1500:], build_log=m.get("build_log", "")[-1500:]))
